@@ -122,6 +122,8 @@ class Scheduled:
     something another call holds - an engine may legitimately serialise its parses); the schedule goes on with the other
     calls.  Only when no call at all can make progress is that a problem (deadlock / hang)."""
 
+    BLOCKS = 0          # blocked calls seen so far in this process
+
     def __init__(self, eng, texts, timeout=60.0, block_timeout=3.0):
         self.eng, self.texts, self.timeout, self.block_timeout = eng, texts, timeout, block_timeout
         n = len(texts)
@@ -173,12 +175,21 @@ class Scheduled:
         """give call i a go (unless one is pending) and wait for it to come back; True when it did"""
         if self.state[i] == "done":
             return True
-        if not self.pending[i]:
+        was_pending = self.pending[i]
+        if not was_pending:
             self.pending[i] = True
             self.go[i].release()
+        # a call already known to be blocked is only polled; once the engine has shown (10 times in this process) that it
+        # serialises its parses, blocking is recognised after 0.3 s instead of block_timeout
+        if was_pending:
+            wait = min(wait, 0.02)
+        elif Scheduled.BLOCKS >= 10:
+            wait = min(wait, 0.3)
         if self.arr[i].acquire(timeout=wait):
             self.pending[i] = False
             return True
+        if not was_pending:
+            Scheduled.BLOCKS += 1
         self.blocked_seen += 1
         return False
 
